@@ -8,7 +8,7 @@ COMMON := -std=c++17 -g -fno-omit-frame-pointer -I$(REPO)/include -DYAKUSHIMA_VE
 OPT ?= -O1
 LIBS := -lglog -ltbb -lpthread
 
-E1 := h_tree
+E1 := h_tree h_proto_s1 h_proto_s2 h_proto_s3
 BINS := $(addprefix $(B)/,$(E1))
 
 all: $(BINS)
@@ -22,7 +22,10 @@ $(B)/alloc.o: engine/alloc.cpp engine/alloc.h | $(B)
 $(B)/%.o: harness/%.cpp | $(B)
 	$(CXX) $(COMMON) $(OPT) -MMD -MP -c $< -o $@
 
-$(B)/h_%: $(B)/h_%.o $(B)/sched.o $(B)/alloc.o
+$(B)/h_proto_s1.o $(B)/h_proto_s2.o $(B)/h_proto_s3.o: $(B)/h_proto_s%.o: harness/h_proto.cpp | $(B)
+	$(CXX) $(subst SESSIONS=$(SESS),SESSIONS=$*,$(COMMON)) $(OPT) -MMD -MP -c $< -o $@
+
+$(BINS): $(B)/h_%: $(B)/h_%.o $(B)/sched.o $(B)/alloc.o
 	$(CXX) -o $@ $^ $(LIBS)
 
 $(B):
